@@ -89,6 +89,15 @@ func vpH_C11_crc() {
 		vpReach("C11 merged")
 	case 3:
 		vpAssume(len(docs) > 0)
+		if vpChoice("merge-loaded-input", 2) == 1 {
+			// the single input of the merge is itself a loaded segment
+			seg = vpLoad(vpPersist(seg))
+			var buf bytes.Buffer
+			n, err := Merge([]segment.Segment{seg}, []*roaring.Bitmap{nil}, 0).WriteTo(&buf, nil)
+			vpMust(err, "Merger.WriteTo")
+			vpAssert(n == int64(buf.Len()), "Merger.WriteTo returns the number of bytes written")
+			vpFooterCheck("merged (single loaded input)", buf.Bytes(), uint64(len(docs)), defaultChunkMode)
+		}
 		mb, _ := vpMergeBytes([]*Segment{seg}, []*roaring.Bitmap{nil}, mode)
 		vpFooterCheck("merged (chunk mode)", mb, uint64(len(docs)), mode)
 		l := vpLoad(mb)
